@@ -210,6 +210,9 @@ let dispatch (fn : string) (args : sx list) : sx =
   | "loclist_model", [divs; parts; labels] ->
       let d = get_list get_z divs and ps = get_list (get_list get_z) parts and ls = get_list get_z labels in
       L [of_list of_z (ll_divisions d ls); of_list (of_list of_z) (ll_parts d ps ls)]
+  | "sp_model", [divs; rows] ->
+      let d = get_list get_z divs and r = get_list get_z rows in
+      L [of_list of_nat (List.map (sp_part d) r); of_list (of_list of_z) (sp_parts d r)]
   | "dnf_extract", [t] -> of_opt (of_list (of_list of_atom)) (extract (get_ptree t))
   | _ -> failwith ("unknown request " ^ fn)
 (*DISPATCH-END*)
